@@ -228,6 +228,9 @@ func run(t vlib.TB, test string, sc scenario, thruAttrs slog.Attrs, args []any) 
 			if errDump && off >= dumpStart && payload[off] == '\t' {
 				continue
 			}
+			if payload[off] == '\t' && strings.Contains(sc.Msg, "&") {
+				continue // a tab written as a character reference (&#9; &Tab;) is the message's own tab
+			}
 			vlib.Discrep(t, sigRaw, "C06 %s: raw control/escape byte %#x at offset %d does not come from the message; payload %q",
 				desc, payload[off], off, payload)
 			break
